@@ -15,7 +15,7 @@ use serde_json::{json, Value};
 
 pub struct C10;
 
-fn ev_of(e: &ClientSessionEvent) -> Option<Ev> {
+pub fn ev_of(e: &ClientSessionEvent) -> Option<Ev> {
     Some(match e {
         ClientSessionEvent::ConnectionRequestAccepted => Ev::ConnectionAccepted,
         ClientSessionEvent::ConnectionRequestRejected { .. } => Ev::ConnectionRejected,
@@ -32,7 +32,7 @@ fn ev_of(e: &ClientSessionEvent) -> Option<Ev> {
     })
 }
 
-fn server_message(op: &Op) -> Option<(RMsg, u32, u32)> {
+pub fn server_message(op: &Op) -> Option<(RMsg, u32, u32)> {
     Some(match op {
         Op::Result { txid, stream_id, non_number } => {
             let args = if *non_number {
@@ -72,7 +72,7 @@ fn server_message(op: &Op) -> Option<(RMsg, u32, u32)> {
     })
 }
 
-fn execute(rig: &mut ClientRig, op: &Op) -> Result<Obs, (String, String)> {
+pub fn execute(rig: &mut ClientRig, op: &Op) -> Result<Obs, (String, String)> {
     let r = guarded(|| -> Result<sessprep::Step<ClientSessionEvent>, String> {
         if let Some((m, msid, ts)) = server_message(op) {
             return rig.send(&m, msid, ts);
@@ -193,7 +193,7 @@ fn sel_msid(m: &Model, s: MsidSel) -> u32 {
     }
 }
 
-fn resolve(sym: Sym, m: &Model, rng: &mut Rng, step: usize) -> Op {
+pub fn resolve(sym: Sym, m: &Model, rng: &mut Rng, step: usize) -> Op {
     let media = |rng: &mut Rng| -> (u32, Vec<u8>) { (rng.u32_boundary(), rng.bytes_in(0, 40)) };
     match sym {
         Sym::RequestConnection => Op::RequestConnection { app: format!("app{}", step % 3) },
@@ -251,7 +251,7 @@ pub const ENUM_ALPHABET: [Sym; 14] = [
     Sym::Ping,
 ];
 
-fn random_sym(rng: &mut Rng, m: &Model) -> Sym {
+pub fn random_sym(rng: &mut Rng, m: &Model) -> Sym {
     if rng.chance(1, 3) {
         // progress
         match m.st {
@@ -295,7 +295,7 @@ fn random_sym(rng: &mut Rng, m: &Model) -> Sym {
     }
 }
 
-fn op_json(op: &Op) -> Value {
+pub fn op_json(op: &Op) -> Value {
     json!(format!("{:?}", op).chars().take(160).collect::<String>())
 }
 
